@@ -69,6 +69,7 @@ type env struct {
 	gen      map[int]int // keystore id -> how many times it was created / imported in this wallet lineage
 	unlocked bool
 	acctVariant map[int]int
+	sec      map[string]*ksSecrets
 	c        *ctl // fault control (C12)
 	faulty   bool
 	quiet    bool
@@ -1107,6 +1108,12 @@ func main() {
 	e.wf = []bool{true, true, true, true, true, false, false, false}
 	for i := 0; i < 4; i++ {
 		e.seeds = append(e.seeds, sha256sum("pool-seed-"+strconv.Itoa(i)))
+	}
+	if *focus == "C04" {
+		runSecrecy(e)
+		e.closeStore()
+		h.Finish("wallet histories behind a recording db.DB: every stored value and export field is opened with keys derived from the passphrases and classified (model table); byte scan of store files, exports and log output for every secret after every operation; distinct = distinct (line, class) pairs")
+		return
 	}
 	if *focus == "C12" {
 		e.idOf, e.nameOf = map[string]int{}, map[int]string{}
